@@ -698,12 +698,20 @@ def check_helpers(case, ctx):
         nn = rng.randint(2, 40)
         linalg.linspace(a, b, nn)
         linalg.linspace(b, a, nn)          # descending intervals are evenly spaced sequences too
-        step = (b - a) / rng.randint(1, 12)
+        m_ = rng.randint(1, 12)
+        step = (b - a) / m_
         seq = list(linalg.frange(a, b, step))
+        # a step that divides the interval: exactly m + 1 values, the end value once (not once more a rounding error before it)
         ok = seq[0] == a and all(y > x for x, y in zip(seq, seq[1:])) and \
-            all(y - x <= step * (1 + 1e-9) for x, y in zip(seq, seq[1:])) and abs(seq[-1] - b) <= 1e-9 * max(1, abs(b)) and \
-            len(seq) >= (b - a) / step
-        ctx.check(ok, 'helper/frange', 'frange(%r,%r,%r) = %r' % (a, b, step, seq), what='helper')
+            all(y - x <= step * (1 + 1e-9) for x, y in zip(seq, seq[1:])) and seq[-1] == b and len(seq) == m_ + 1
+        ctx.check(ok, 'helper/frange', 'frange(%r,%r,%r) = %r (%d values, expected %d)' % (a, b, step, seq, len(seq), m_ + 1), what='helper')
+        # any other step: start + i * step while inside the interval, then the end value - nothing beyond it
+        st2 = (b - a) * rng.uniform(0.12, 0.95)
+        seq2 = list(linalg.frange(a, b, st2))
+        ok2 = seq2[0] == a and seq2[-1] == b and all(a <= x <= b for x in seq2) and all(y > x for x, y in zip(seq2, seq2[1:])) and \
+            all(abs(x - (a + i * st2)) <= 1e-12 * max(1.0, abs(a), abs(b)) for i, x in enumerate(seq2[:-1])) and \
+            seq2[-1] - seq2[-2] <= st2 * (1 + 1e-9)
+        ctx.check(ok2, 'helper/frange', 'frange(%r,%r,%r) = %r' % (a, b, st2, seq2), what='helper')
         r, c_ = rng.randint(1, 5), rng.randint(1, 5)
         M = [[float(rng.randint(-9, 9)) for _ in range(c_)] for _ in range(r)]
         linalg.matrix_transpose(M)
